@@ -471,7 +471,7 @@ func TestVerifC30(t *testing.T) {
 		}
 	}
 
-	cases := vfScale(1500, 40000)
+	cases := vfScale(1500, 150000)
 	id := int64(0)
 	for n := 0; n < cases; n++ {
 		v := c30Gen(r)
